@@ -1,6 +1,7 @@
 import PkgProofs.Lemmas.SpecSet
 import PkgProofs.Lemmas.SpecAlike
 import PkgProofs.Lemmas.SpecReadable
+import PkgProofs.Lemmas.SpecRoundtrip
 /-!
 # C05 — SpecifierSet is the conjunction of its specifiers; `&` is intersection; `str` round trip
 
@@ -597,6 +598,118 @@ theorem and_is_inter_of_strings (sa sb : Str) (pa pb : Option Bool) (A B R : Spe
   and_is_inter A B R h ita itb itr ha hb hr c
     (fun m hm => cmpOk_of_readable (ofString_readable hA m hm) (C02.scan_wf cs c hc))
     (fun m hm => cmpOk_of_readable (ofString_readable hB m hm) (C02.scan_wf cs c hc))
+
+/-! ### `str` round trip, from strings
+
+`SSet.parse_roundtrips`: everything `Specifier.__init__` accepts prints to a clean clause that parses back to
+it, unless it is an `===` clause whose text contains a comma.  A clause taken from a `SpecifierSet` string cannot
+contain a comma, so for string-built sets the round trip holds without any hypothesis. -/
+
+theorem splitOn_pieces_no_sep (sep : Nat) (s : Str) : ∀ piece ∈ splitOn sep s, sep ∉ piece := by
+  induction s with
+  | nil => intro piece hp; simp [splitOn] at hp; subst hp; simp
+  | cons c cs ih =>
+    intro piece hp
+    simp only [splitOn] at hp
+    by_cases hc : (c == sep) = true
+    · simp only [hc, ↓reduceIte, List.mem_cons] at hp
+      rcases hp with rfl | hp
+      · simp
+      · exact ih piece hp
+    · simp only [hc, Bool.false_eq_true, ↓reduceIte] at hp
+      cases hsp : splitOn sep cs with
+      | nil => exact absurd hsp (splitOn_ne_nil sep cs)
+      | cons q qs =>
+        rw [hsp] at hp ih
+        simp only [List.mem_cons] at hp
+        rcases hp with rfl | hp
+        · intro hm
+          rcases List.mem_cons.mp hm with e | hm
+          · exact hc (by simp [e])
+          · exact ih q (by simp) hm
+        · exact ih piece (by simp [hp])
+
+theorem clauses_no_comma (s : Str) : ∀ c ∈ clauses s, 44 ∉ c := by
+  intro c hc
+  simp only [clauses, List.mem_filter, List.mem_map] at hc
+  obtain ⟨⟨piece, hp, rfl⟩, _⟩ := hc
+  intro hm
+  exact splitOn_pieces_no_sep 44 s piece hp (stripBy_subset isSpacePy piece 44 hm)
+
+theorem takeOp_subset {t r : Str} {op : S.Op} (h : takeOp t = some (op, r)) : ∀ x ∈ r, x ∈ t := by
+  unfold takeOp at h
+  split at h <;> simp only [Option.some.injEq, Prod.mk.injEq, reduceCtorEq] at h <;>
+    (try (obtain ⟨_, rfl⟩ := h; intro x hx; simp [hx]))
+
+/-- the text of a parsed `===` clause consists of characters of the clause -/
+theorem parse_arbitrary_subset {c : Str} {sp : Spec} (h : parseSpec c = some sp) (harb : sp.op = .arbitrary) :
+    ∀ x ∈ sp.ver, x ∈ c := by
+  unfold parseSpec at h
+  split at h
+  · cases h
+  · rename_i op r hto
+    simp only at h
+    by_cases ho : op = .arbitrary
+    · subst ho
+      simp only [beq_self_eq_true, ↓reduceIte] at h
+      split at h
+      · injection h with h; subst h
+        intro x hx
+        have h1 := stripBy_subset isSpacePy _ x hx
+        have h2 := stripBy_subset isWs _ x h1
+        have h3 := takeOp_subset hto x h2
+        exact (List.dropWhile_suffix isWs).subset h3
+      · cases h
+    · have hne : (op == Op.arbitrary) = false := by simp [ho]
+      simp only [hne, Bool.false_eq_true, ↓reduceIte] at h
+      split at h
+      · split at h
+        · injection h with h; subst h; exact absurd harb ho
+        · cases h
+      · cases h
+
+/-- every member of a set parsed from a string prints to a clause that parses back to it -/
+theorem ofString_roundtrips {s : Str} {p : Option Bool} {T : SpecSet} (h : SSet.ofString s p = .ok T) :
+    ∀ m ∈ T.specs, Roundtrips m.1 := by
+  obtain ⟨sps, hs, hT, _⟩ := ofString_ok h
+  subst hT
+  intro m hm
+  have hm' := fromList_sub hm
+  obtain ⟨sp, hsp, rfl⟩ := List.mem_map.mp hm'
+  obtain ⟨c, hc, hp⟩ := parseAll_mem hs sp hsp
+  exact parse_roundtrips c sp hp (fun harb hmem => clauses_no_comma s c hc (parse_arbitrary_subset hp harb 44 hmem))
+
+/-- **`str()` of a set parsed from a string parses back to an equal set and is a fixed point** — for every
+iteration order, no hypothesis -/
+theorem str_parses_back_of_strings (s : Str) (p : Option Bool) (T : SpecSet) (hT : SSet.ofString s p = .ok T)
+    (it : List Member) (hp : it.Perm T.specs) :
+    ∃ T', SSet.ofString (T.str it) none = .ok T' ∧ T'.eq T = true ∧ T'.len = T.len ∧
+      ∀ it', it'.Perm T'.specs → T'.str it' = T.str it :=
+  str_parses_back T (ofString_wf hT) it hp (ofString_roundtrips hT)
+
+/-- the same for `a & b` of two such sets -/
+theorem str_parses_back_and_of_strings (sa sb : Str) (pa pb : Option Bool) (A B R : SpecSet)
+    (hA : SSet.ofString sa pa = .ok A) (hB : SSet.ofString sb pb = .ok B) (h : A.and B = .ok R)
+    (it : List Member) (hp : it.Perm R.specs) :
+    ∃ T', SSet.ofString (R.str it) none = .ok T' ∧ T'.eq R = true ∧ T'.len = R.len ∧
+      ∀ it', it'.Perm T'.specs → T'.str it' = R.str it := by
+  refine str_parses_back R (and_wf (ofString_wf hA) h) it hp ?_
+  intro m hm
+  rw [(and_ok h).1] at hm
+  rcases union_sub hm with h' | h'
+  · exact ofString_roundtrips hA m h'
+  · exact ofString_roundtrips hB m h'
+
+/-- a set built from `Specifier` objects: the round trip holds iff no `===` member contains a comma
+(the hypothesis named in the property's design; `str_does_not_parse_back_with_comma` is the witness) -/
+theorem str_parses_back_of_parsed (T : SpecSet) (hwf : WF T) (it : List Member) (hp : it.Perm T.specs)
+    (hparsed : ∀ m ∈ T.specs, ∃ c, parseSpec c = some m.1)
+    (hcomma : ∀ m ∈ T.specs, m.1.op = .arbitrary → 44 ∉ m.1.ver) :
+    ∃ T', SSet.ofString (T.str it) none = .ok T' ∧ T'.eq T = true ∧ T'.len = T.len ∧
+      ∀ it', it'.Perm T'.specs → T'.str it' = T.str it :=
+  str_parses_back T hwf it hp (fun m hm => by
+    obtain ⟨c, hc⟩ := hparsed m hm
+    exact parse_roundtrips c m.1 hc (hcomma m hm))
 
 /-! ## non-vacuity and the recorded corner -/
 
